@@ -104,6 +104,12 @@ class Sys:
         for sp in mols:
             d = species[sp]
             pos = d['rpos'] @ rot(rng).T + rng.uniform(1.0, 8.0, 3) + far + rng.normal(size=(d['rn'], 3)) * 0.01
+            if d['rn'] >= 3 and rng.random() < 0.12:
+                # a stretched conformer straight from a lattice builder: all atoms exactly on one line
+                step_ = rng.integers(-2, 3, 3).astype(float) * 0.125
+                if not step_.any():
+                    step_[0] = 0.125
+                pos = (rng.uniform(1.0, 8.0, 3) + far) + np.outer(np.arange(d['rn']), step_)
             pos = np.array([[float('%.3f' % v) for v in row] for row in pos])
             rids = []
             last = None
